@@ -18,7 +18,7 @@ from checks.c04 import _Ids
 
 ID = 'C02'
 LEVEL = 'exploration'
-TIERS = {'quick': {'runs': 9600, 'budget_s': 50, 'models': 48},
+TIERS = {'quick': {'runs': 32000, 'budget_s': 60, 'models': 48},
          'thorough': {'runs': 10 ** 9, 'budget_s': 600, 'models': 2000}}
 RUN_WALL = 120
 CALL_WALL = 20
